@@ -22,11 +22,23 @@
 (* address never serves a request - it answers it by starting its own         *)
 (* exchange - so it is always the key-exchange client; the higher one always   *)
 (* serves and abandons its own exchange.  Neither candidate is in the code.    *)
+(*                                                                         *)
+(* The SECOND way two routers get end-to-end keys is the link (peering)       *)
+(* handshake between direct peers (peering/init.go): three signed messages     *)
+(* per direction over the (reliable, ordered) connection - request, response,   *)
+(* ack - with a key exchange of its own that is kept apart from the session      *)
+(* until finalize() installs it with SetEncryptionSession ("the key exchange     *)
+(* also sets up the encryption with the router itself").  LinkDial / LinkRecv    *)
+(* model it beside the hello actions (MaxLinks = 0 switches it off), so that      *)
+(* TLC enumerates every placement of a hello exchange between the first message   *)
+(* of a handshake and the two finalisations.  Its messages are signed by the       *)
+(* same sessions and pass the same strict time sequence as the hello pings.        *)
 (***************************************************************************)
 EXTENDS Integers, Sequences, FiniteSets, TLC, Json
 
 CONSTANTS MaxStarts, MaxDrops, MaxDups, TieBreak, RoleByAddress,
-          MaxForget   \* how often a router may lose its keys on its own (restart, idle sessions are cleaned up)
+          MaxForget,  \* how often a router may lose its keys on its own (restart, idle sessions are cleaned up)
+          MaxLinks    \* how many link handshakes between the two routers may be started (0: hello exchanges only)
 
 Routers == {"A", "B"}
 Peer(x) == IF x = "A" THEN "B" ELSE "A"
@@ -41,13 +53,20 @@ VARIABLES live,     \* router -> [set |-> BOOLEAN, c, s, role]   keys = K(c, s)
           nstart, ndrop, ndup,
           nforget,
           errs,     \* router -> number of "no keys" errors it has sent (rate limited in the code)
+          lq,       \* router -> sequence of link-handshake messages on the connection towards it (FIFO, reliable)
+          lst,      \* router -> its end of the link handshake [step, client, c, s]
+          nlink,    \* link handshakes started so far
           act
 
-vars == <<live, pending, net, clock, latest, fresh, nstart, ndrop, ndup, errs, nforget, act>>
-View == <<live, pending, net, clock, latest, fresh, nstart, ndrop, ndup, errs, nforget>>
+\* step of one end of a link handshake: 0 none, 1 waiting for the request, 2 for the response, 3 for the ack,
+\* 4 finalised (linked), 5 failed (connection closed)
+lvars == <<lq, lst, nlink>>
+vars == <<live, pending, net, clock, latest, fresh, nstart, ndrop, ndup, errs, nforget, lq, lst, nlink, act>>
+View == <<live, pending, net, clock, latest, fresh, nstart, ndrop, ndup, errs, nforget, lq, lst, nlink>>
 
 NoKeys == [set |-> FALSE, c |-> 0, s |-> 0, role |-> "none"]
 NoPending == [open |-> FALSE, id |-> 0, c |-> 0, done |-> FALSE]
+NoLink == [step |-> 0, client |-> FALSE, c |-> 0, s |-> 0]
 
 Init == /\ live = [x \in Routers |-> NoKeys]
         /\ pending = [x \in Routers |-> NoPending]
@@ -56,6 +75,7 @@ Init == /\ live = [x \in Routers |-> NoKeys]
         /\ fresh = 1
         /\ nstart = [x \in Routers |-> 0] /\ ndrop = 0 /\ ndup = 0
         /\ errs = [x \in Routers |-> 0] /\ nforget = 0
+        /\ lq = [x \in Routers |-> <<>>] /\ lst = [x \in Routers |-> NoLink] /\ nlink = 0
         /\ act = [name |-> "init"]
 
 Msg(to, kind, id, share, stamp) == [to |-> to, kind |-> kind, id |-> id, share |-> share, stamp |-> stamp, n |-> 0]
@@ -71,11 +91,12 @@ Start(x) ==
   /\ fresh' = fresh + 2
   /\ nstart' = [nstart EXCEPT ![x] = @ + 1]
   /\ act' = [name |-> "start", at |-> x]
-  /\ UNCHANGED <<live, latest, ndrop, ndup, errs, nforget>>
+  /\ UNCHANGED <<live, latest, ndrop, ndup, errs, nforget>> /\ UNCHANGED lvars
 
 (* A message is taken off the network and handled by its receiver.           *)
 Recv(m) ==
   /\ m \in net
+  /\ m.n = 2 => lst[m.to].step = 4   \* over the link: behind the ack, which the receiver has read when it is linked
   /\ LET y == m.to
          x == Peer(y)
      IN IF m.stamp <= latest[y]
@@ -107,7 +128,9 @@ Recv(m) ==
                                         THEN [pending EXCEPT ![y].done = TRUE]   \* abandon own exchange
                                         ELSE pending
                           /\ clock' = [clock EXCEPT ![y] = @ + 1]
-                          /\ net' = (net \ {m}) \cup {Msg(x, "resp", m.id, fresh, clock[y] + 1)}
+                          \* a router that is linked to the other by now routes its answer over the link (n = 2):
+                          \* ordered behind its handshake messages, neither lost nor duplicated
+                          /\ net' = (net \ {m}) \cup {[Msg(x, "resp", m.id, fresh, clock[y] + 1) EXCEPT !.n = IF lst[y].step = 4 THEN 2 ELSE 0]}
                           /\ fresh' = fresh + 1
                           /\ act' = [name |-> "recv", m |-> m, outcome |-> "served"]
                   [] m.kind = "resp" ->
@@ -125,12 +148,12 @@ Recv(m) ==
                      /\ net' = net \ {m}
                      /\ act' = [name |-> "recv", m |-> m, outcome |-> "cleared"]
                      /\ UNCHANGED <<pending, clock, fresh, nforget>>
-  /\ UNCHANGED <<nstart, ndrop, ndup, errs, nforget>>
+  /\ UNCHANGED <<nstart, ndrop, ndup, errs, nforget>> /\ UNCHANGED lvars
 
-Drop(m) == /\ m \in net /\ ndrop < MaxDrops
+Drop(m) == /\ m \in net /\ ndrop < MaxDrops /\ m.n # 2
            /\ net' = net \ {m} /\ ndrop' = ndrop + 1
            /\ act' = [name |-> "drop", m |-> m]
-           /\ UNCHANGED <<live, pending, clock, latest, fresh, nstart, ndup, errs, nforget>>
+           /\ UNCHANGED <<live, pending, clock, latest, fresh, nstart, ndup, errs, nforget>> /\ UNCHANGED lvars
 
 (* Duplication: a second copy of a message in flight (n = 1).                *)
 Dup(m) == /\ m \in net /\ m.n = 0 /\ ndup < MaxDups
@@ -138,13 +161,13 @@ Dup(m) == /\ m \in net /\ m.n = 0 /\ ndup < MaxDups
           /\ ndup' = ndup + 1
           /\ act' = [name |-> "dup", m |-> m]
           /\ net' = net \cup {[m EXCEPT !.n = 1]}
-          /\ UNCHANGED <<live, pending, clock, latest, fresh, nstart, ndrop, errs, nforget>>
+          /\ UNCHANGED <<live, pending, clock, latest, fresh, nstart, ndrop, errs, nforget>> /\ UNCHANGED lvars
 
 (* The active exchange times out (30 s) / its cool-down ends (5 s).          *)
 Expire(x) == /\ pending[x].open
              /\ pending' = [pending EXCEPT ![x] = NoPending]
              /\ act' = [name |-> "expire", at |-> x]
-             /\ UNCHANGED <<live, net, clock, latest, fresh, nstart, ndrop, ndup, errs, nforget>>
+             /\ UNCHANGED <<live, net, clock, latest, fresh, nstart, ndrop, ndup, errs, nforget>> /\ UNCHANGED lvars
 
 (* Traffic from x reaches a peer that has no keys: it answers with the       *)
 (* "no encryption keys" error (a signed ping).                               *)
@@ -155,7 +178,7 @@ DataToKeyless(x) ==
   /\ clock' = [clock EXCEPT ![Peer(x)] = @ + 1]
   /\ net' = net \cup {Msg(x, "err", 0, 0, clock[Peer(x)] + 1)}
   /\ act' = [name |-> "data", at |-> x]
-  /\ UNCHANGED <<live, pending, latest, fresh, nstart, ndrop, ndup, nforget>>
+  /\ UNCHANGED <<live, pending, latest, fresh, nstart, ndrop, ndup, nforget>> /\ UNCHANGED lvars
 
 (* A router loses its keys on its own: it was restarted, or its idle session   *)
 (* was cleaned up.  Its next packet for the peer starts a new set-up, which   *)
@@ -165,11 +188,86 @@ Forget(x) ==
   /\ live' = [live EXCEPT ![x] = NoKeys]
   /\ nforget' = nforget + 1
   /\ act' = [name |-> "forget", at |-> x]
-  /\ UNCHANGED <<pending, net, clock, latest, fresh, nstart, ndrop, ndup, errs>>
+  /\ UNCHANGED <<pending, net, clock, latest, fresh, nstart, ndrop, ndup, errs>> /\ UNCHANGED lvars
 
+-----------------------------------------------------------------------------
+(* The link (peering) handshake between the two routers as direct peers          *)
+(* (peering/init.go, peering/link.go handleSetup).  Both ends write their signed   *)
+(* request when the connection is up; every end answers the peer's request with a  *)
+(* response (the dialling end is the key-exchange client and puts its share in),    *)
+(* the peer's response with an ack (the listening end derives the keys and puts its  *)
+(* share in) and, having read the peer's ack, derives the link keys and INSTALLS the  *)
+(* handshake's key exchange as the end-to-end encryption session (finalize).  The      *)
+(* connection is ordered and reliable.  Every message is checked against the strict     *)
+(* time sequence of its signer: a hello ping that was signed later but arrived earlier   *)
+(* makes the handshake fail at that end, which closes the connection.                    *)
+LMsg(kind, share, stamp) == [kind |-> kind, share |-> share, stamp |-> stamp]
+LSend(q, y, m) == IF lst[y].step = 5 THEN q ELSE [q EXCEPT ![y] = Append(@, m)]
+
+LinkDial(d) ==
+  /\ nlink < MaxLinks
+  /\ \A x \in Routers : lst[x].step = 0 /\ lq[x] = <<>>
+  /\ lst' = [x \in Routers |-> [step |-> 1, client |-> (x = d), c |-> 0, s |-> 0]]
+  /\ clock' = [x \in Routers |-> clock[x] + 1]
+  /\ lq' = [y \in Routers |-> <<LMsg("lreq", 0, clock[Peer(y)] + 1)>>]
+  /\ nlink' = nlink + 1
+  /\ act' = [name |-> "dial", at |-> d]
+  /\ UNCHANGED <<live, pending, net, latest, fresh, nstart, ndrop, ndup, errs, nforget>>
+
+LinkRecv(y) ==
+  /\ lq[y] # <<>>
+  /\ LET m == Head(lq[y])
+         x == Peer(y)
+         rest == [lq EXCEPT ![y] = Tail(@)]
+         me == lst[y]
+     IN IF m.kind = "lerr"
+        THEN \* the peer gave up and closed the connection
+             /\ lst' = [lst EXCEPT ![y].step = IF me.step = 4 THEN 4 ELSE 5]
+             /\ lq' = [lq EXCEPT ![y] = <<>>]
+             /\ act' = [name |-> "lrecv", at |-> y, kind |-> m.kind, outcome |-> IF me.step = 4 THEN "closed" ELSE "failed"]
+             /\ UNCHANGED <<live, clock, latest, fresh>>
+        ELSE IF m.stamp <= latest[y]
+        THEN \* strict time sequence: the handshake fails at y, y closes the connection
+             /\ lst' = [lst EXCEPT ![y].step = 5]
+             /\ lq' = [lq EXCEPT ![y] = <<>>, ![x] = IF lst[x].step = 5 THEN <<>> ELSE Append(@, LMsg("lerr", 0, 0))]
+             /\ act' = [name |-> "lrecv", at |-> y, kind |-> m.kind, outcome |-> "refused"]
+             /\ UNCHANGED <<live, clock, latest, fresh>>
+        ELSE /\ latest' = [latest EXCEPT ![y] = m.stamp]
+             /\ CASE m.kind = "lreq" ->
+                     LET share == IF me.client THEN fresh ELSE 0
+                     IN /\ lst' = [lst EXCEPT ![y] = [me EXCEPT !.step = 2, !.c = share]]
+                        /\ fresh' = IF me.client THEN fresh + 1 ELSE fresh
+                        /\ clock' = [clock EXCEPT ![y] = @ + 1]
+                        /\ lq' = LSend(rest, x, LMsg("lresp", share, clock[y] + 1))
+                        /\ act' = [name |-> "lrecv", at |-> y, kind |-> m.kind, outcome |-> "request"]
+                        /\ UNCHANGED live
+                  [] m.kind = "lresp" ->
+                     LET share == IF me.client THEN 0 ELSE fresh
+                     IN /\ lst' = [lst EXCEPT ![y] = IF me.client THEN [me EXCEPT !.step = 3]
+                                                    ELSE [me EXCEPT !.step = 3, !.c = m.share, !.s = fresh]]
+                        /\ fresh' = IF me.client THEN fresh ELSE fresh + 1
+                        /\ clock' = [clock EXCEPT ![y] = @ + 1]
+                        /\ lq' = LSend(rest, x, LMsg("lack", share, clock[y] + 1))
+                        /\ act' = [name |-> "lrecv", at |-> y, kind |-> m.kind, outcome |-> "response"]
+                        /\ UNCHANGED live
+                  [] m.kind = "lack" ->
+                     \* finalize(): the handshake's key exchange becomes the end-to-end session, whatever was there
+                     LET s == IF me.client THEN m.share ELSE me.s
+                     IN /\ lst' = [lst EXCEPT ![y] = [me EXCEPT !.step = 4, !.s = s]]
+                        /\ live' = [live EXCEPT ![y] = [set |-> TRUE, c |-> me.c, s |-> s,
+                                                         role |-> IF me.client THEN "lclient" ELSE "lserver"]]
+                        /\ lq' = rest
+                        /\ act' = [name |-> "lrecv", at |-> y, kind |-> m.kind, outcome |-> "finalized"]
+                        /\ UNCHANGED <<clock, fresh>>
+  /\ UNCHANGED <<pending, net, nstart, ndrop, ndup, errs, nforget, nlink>>
+
+LinkBusy == \E x \in Routers : lst[x].step \in {1, 2, 3} \/ lq[x] # <<>>
+
+Opp(r) == CASE r = "client" -> "server" [] r = "server" -> "client"
+            [] r = "lclient" -> "lserver" [] r = "lserver" -> "lclient" [] OTHER -> "?"
 Compatible == /\ live["A"].c = live["B"].c /\ live["A"].s = live["B"].s
-              /\ live["A"].role # live["B"].role
-Quiescent == ~\E m \in net : m.kind \in {"req", "resp"}
+              /\ live["B"].role = Opp(live["A"].role)
+Quiescent == (~\E m \in net : m.kind \in {"req", "resp"}) /\ ~LinkBusy
 Mismatch == Quiescent /\ live["A"].set /\ live["B"].set /\ ~Compatible
 
 (* Simulation: a random enabled step.                                        *)
@@ -195,6 +293,17 @@ DumpStep == PrintT("OUT " \o ToJson([a |-> act', bad |-> Mismatch', net |-> net'
 
 Next == \/ \E x \in Routers : Start(x) \/ Expire(x) \/ DataToKeyless(x) \/ Forget(x)
         \/ \E m \in net : Recv(m) \/ Drop(m) \/ Dup(m)
+        \/ \E x \in Routers : LinkDial(x) \/ LinkRecv(x)
+
+(* A hello exchange and a link handshake between the same two routers: ONE router  *)
+(* starts a hello exchange (two at once are the open findings of the hello exchange  *)
+(* alone), at any moment before, during or after the handshake; every placement of    *)
+(* its two messages (and of a loss / a duplicate, if the bounds allow one) between     *)
+(* the six messages of the handshake.                                                  *)
+NextLink ==
+  \/ \E x \in Routers : Start(x) /\ nstart["A"] + nstart["B"] = 0
+  \/ \E m \in net : Recv(m) \/ Drop(m) \/ Dup(m)
+  \/ \E x \in Routers : LinkDial(x) \/ LinkRecv(x)
 
 (* Re-keying, one set-up at a time: a set-up completes undisturbed, one router    *)
 (* forgets its keys, the windows run out, and the set-up runs again against the  *)
